@@ -269,7 +269,7 @@ def gen_history(rng: random.Random, prog, n_ops):
     idx = lf.index(prog)
     top = prog["nodes"]
     args = [n["id"] for n in top if n["k"] == "arg"]
-    scalars = [n["id"] for n in top if n["k"] not in ("arg", "init", "junk")]
+    scalars = [n["id"] for n in top if n["k"] not in ("arg", "init", "junk", "tcast")]
     anyv = args + scalars
     nxt = prog["n"]
     hist = []
